@@ -15,8 +15,12 @@ Init == key \in KeyIds /\ last = <<"none", 0>> /\ hist = <<>>
 Call(op, b, alias) == /\ last' = <<op, b>>
                       /\ hist' = Append(hist, [op |-> op, b |-> b, alias |-> alias])
                       /\ UNCHANGED key
+\* a call whose source is shorter than a block: the object refuses it (it may panic) and nothing about it changes
+Short(op) == /\ hist' = Append(hist, [op |-> op, b |-> 0, alias |-> FALSE])
+             /\ UNCHANGED <<key, last>>
 Next == /\ Len(hist) < MaxOps
-        /\ \E op \in {"enc", "dec"}, b \in BlkIds, a \in BOOLEAN : Call(op, b, a)
+        /\ \/ \E op \in {"enc", "dec"}, b \in BlkIds, a \in BOOLEAN : Call(op, b, a)
+           \/ \E op \in {"encshort", "decshort"} : Short(op)
 Spec == Init /\ [][Next]_vars
 Emit == Len(hist) = MaxOps => PrintT(<<"BEH", ToJson([key |-> key, ops |-> hist])>>)
 =============================================================================
